@@ -13,6 +13,7 @@
 # limitations under the License.
 
 from .list import ConfigList
+from .node import ConfigNode
 from ..namespace import namespace
 
 
@@ -39,5 +40,8 @@ class StreamNode(ConfigList):
     def on_premerge_impl(self, path, into):
         self.clear()
         self.builder.flatten()
+        if self._priority != ConfigNode.STANDARD:
+            # (given by the include node: the priority of the place this content goes to, for everything in it)
+            self.builder.stages[0] = ConfigNode(self.builder.stages[0], priority=self._priority)
         self.append(self.builder.stages[0])
         return self.builder.stages[0].ayns.on_premerge(path, into)
